@@ -67,6 +67,10 @@ func (s *Store) call(site string, write bool) error {
 	}
 	if s.FaultsOn && vr.Fault(site) {
 		s.Faulted = append(s.Faulted, site)
+		if strings.HasPrefix(site, "get-") && vr.AnyBool("notfound:"+site) {
+			// a read that fails with NotFound (lagging cache, concurrent delete) rather than a transport error
+			return notFound(strings.TrimPrefix(site, "get-")+"s", "injected")
+		}
 		return &apiError{"injected API failure at " + site}
 	}
 	if s.CrashesOn && vr.Fault("crash-before-"+site) {
@@ -577,11 +581,22 @@ func (c *Client) Watch(ctx context.Context, list client.ObjectList, opts ...clie
 	if err := c.S.call("watch-pods", false); err != nil {
 		return nil, err
 	}
-	w := &watcher{ch: make(chan watch.Event, 4)}
-	var target *v1.Pod
-	for _, p := range c.S.Pods {
-		if podMatches(p, opts) {
-			target = p
+	w := &watcher{ch: make(chan watch.Event, 8)}
+	keys := make([]string, 0, len(c.S.Pods))
+	for k := range c.S.Pods {
+		keys = append(keys, k)
+	}
+	sort.Strings(keys)
+	var annotated, fresh []*v1.Pod
+	for _, k := range keys {
+		p := c.S.Pods[k]
+		if !podMatches(p, opts) {
+			continue
+		}
+		if p.Annotations["run.ai/reserve_for_gpu_index"] != "" {
+			annotated = append(annotated, p)
+		} else {
+			fresh = append(fresh, p)
 		}
 	}
 	outcome := 0 // a healthy environment annotates the reservation pod
@@ -591,9 +606,13 @@ func (c *Client) Watch(ctx context.Context, list client.ObjectList, opts ...clie
 	if outcome != 0 {
 		c.S.WatchFailures++
 	}
+	// a watch first reports the objects that already match its selector
+	for _, p := range annotated {
+		w.ch <- watch.Event{Type: watch.Added, Object: p.DeepCopy()}
+	}
 	switch outcome {
 	case 0:
-		if target != nil {
+		for _, target := range fresh {
 			if target.Annotations == nil {
 				target.Annotations = map[string]string{}
 			}
